@@ -22,6 +22,9 @@ pub struct TomlOpts {
     pub extra_build: Vec<String>,
     /// path dependencies: (name, relative path)
     pub deps: Vec<(String, String)>,
+    /// git dependencies: (name, url, version requirement)
+    #[serde(default)]
+    pub git_deps: Vec<(String, String, String)>,
 }
 
 impl Default for TomlOpts {
@@ -34,6 +37,7 @@ impl Default for TomlOpts {
             incremental: true,
             extra_build: vec![],
             deps: vec![],
+            git_deps: vec![],
         }
     }
 }
@@ -58,10 +62,13 @@ impl TomlOpts {
             s.push_str(l);
             s.push('\n');
         }
-        if !self.deps.is_empty() {
+        if !self.deps.is_empty() || !self.git_deps.is_empty() {
             s.push_str("\n[dependencies]\n");
             for (n, p) in &self.deps {
                 s.push_str(&format!("{n} = {{path = \"{p}\"}}\n"));
+            }
+            for (n, u, r) in &self.git_deps {
+                s.push_str(&format!("{n} = {{git = \"{u}\", version = \"{r}\"}}\n"));
             }
         }
         s
